@@ -15,6 +15,7 @@ EXPLANATION = (
     "move-out/restore); I7 id seeding (C07.H6). I8: the index is written with written=false first and the flag is set by a later "
     "positional rewrite of the header (two-phase), so a torn body never carries written=1. Decides the gate, not equality of "
     "answers before/after restart.")
+EXPLANATION += (" " + "I9 = C05.V7. I10 combines two facts: the set of io::ErrorKind discriminants on which the index-open error handler of Blob::from_file returns Err (read from the switch on io_error.kind(); ALL when there is none) and the index-file reads of the open path whose error is not passed through into_bincode_if_unexpected_eof in the function or at every call site; only 'gives up on UnexpectedEof' together with an unconverted read is reported.")
 ASSUMPTIONS = []
 
 VALIDATE = 'blob::index::core::FileIndexTrait::validate'
